@@ -104,17 +104,20 @@ RULE = ("Random datasets of 1-40 labels (numeric times on a LinearScale, date/da
         "layerGap >= 1 (down to exactly 1) x paddings, sizes, bounds, density, stub width; half of the cases are dense data "
         "with bounds so that several layers arise. A case is one dataset exported by both back-ends; non-trivial = at least two "
         "layers and two labels sharing a layer; distinct by input.")
-EXPLANATION = ("Theorems are about coq/Render/Geometry.v: given the separation of rounded centres that property C01 "
-               "guarantees for the solver (a hypothesis here), the truncated boxes are disjoint, on the named side and ordered "
-               "by layer, for every label list, chain depth, size and direction. The tie checks that labella's Renderer.layout, "
-               "nodePos and both emitters print exactly the boxes of the model on the implementation's own layout result.")
+EXPLANATION = ("Geometry theorems (coq/Render/Geometry.v): given the separation of rounded centres, the truncated boxes are "
+               "disjoint, on the named side and ordered by layer, for every label list, chain depth, size and direction. "
+               "Composition (coq/Render/Compose.v): for the scene built from the ENGINE's layout of the timeline's items that "
+               "separation is a theorem (C01_pairwise_labels + C01_all_layers), so C08_engine_disjoint/_side/_layers carry no "
+               "hypothesis. Two ties: the document model on the implementation's own layout result, and the end-to-end family "
+               "engine:* (API 800) in which the model computes layers, positions, chains and boxes from items and options alone.")
 LEVEL_TEXT = ("Machine-checked Coq theorems (all label lists, sizes, layer gaps >= 1, four directions) on a Gallina model of "
-              "renderer.py/timeline.py geometry, with the per-layer separation of property C01 as an explicit hypothesis "
-              "(proved for the solver model by the layout package); the model is tied to the code by differential execution "
-              "of both exports on every run.")
+              "renderer.py/timeline.py geometry; composed with the engine model (distributor + per-layer solver) and the C01 "
+              "theorems into C08_engine_disjoint, C08_engine_side, C08_engine_layers, C08_engine_disjoint_drawn for label spacing "
+              ">= 3 and layer gap >= 1 with no separation hypothesis left; tied to the code by differential execution of both "
+              "exports and by an end-to-end family that takes nothing of the layout from the implementation.")
 LEVEL_NOTE = ("Trusted: Coq kernel; extraction re-checked on a slice by vm_compute; the correspondence harness (SVG/TikZ parsers, "
-              "generators). Hypothesis carried by C08_same_layer/C08_disjoint: rounded centres in one layer are at least "
-              "(w_a+w_b)/2 + nodeSpacing - 1 apart (property C01). Modelled, not verified: labella/*.py; doubles as exact "
+              "generators). The geometry-level theorems C08_same_layer/C08_disjoint take the separation of rounded centres as a "
+              "hypothesis; the engine-level theorems discharge it. Modelled, not verified: labella/*.py; doubles as exact "
               "rationals (truncations that fall within 1e-7 of an integer on non-dyadic inputs are counted as ambiguous).")
 TECHNIQUE = "Coq proof (trunc bounds + linear arithmetic over Q, one lemma per axis role) + model/implementation correspondence on parsed SVG and TikZ"
-ASSUMPTIONS = ["C01 separation of rounded centres within a layer (hypothesis of C08_same_layer and C08_disjoint)"]
+ASSUMPTIONS = ["axis positions scale(time) of the items are inputs of the engine:* family (the scale is tied by C11/C12/C15)"]
